@@ -533,6 +533,68 @@ class FileTemp:
         return ObjRef(t, 'vfps::Impedance')
 
 
+class ImpedanceSwap(Contract):
+    """Impedance::swap exchanges the sample tables and nothing else — in particular NOT the sample counts: after swapping two
+    impedances of different length nFreqs() no longer describes the table (callers must not rely on it; the factory, which is
+    the only place main combines impedances, uses operator+= only — see MakeImpedance)"""
+    name = 'vfps::Impedance::swap'
+    tu = 'src/Z/Impedance.cpp'
+    params = ['other']
+    tags = {'C16', 'C17'}
+    ghosts = {'k': 'int'}
+
+    def assigns(self, cx):
+        o = cx.arg('other').name
+        return [('r', cx.R('this._data')), ('len', cx.R('this._data')), ('r', o + '._data'), ('len', o + '._data')]
+
+    def ensures(self, cx):
+        o = cx.arg('other').name
+        k = cx.g('k')
+        out = [('lengths', {'C16', 'C17'}, And(cx.len('this._data') == cx.old.len(o + '._data'), cx.len(o + '._data') == cx.old.len('this._data'))),
+               ('counts_untouched', {'C17'}, And(cx.f('this._nfreqs', 'u64') == cx.old.f('this._nfreqs', 'u64'), cx.f(o + '._nfreqs', 'u64') == cx.old.f(o + '._nfreqs', 'u64')))]
+        for lf in ('re', 'im'):
+            out.append((f'this.{lf}', {'C16'}, Implies(And(k >= 0, k < cx.old.len(o + '._data')), cx.sel('this._data', k, lf) == cx.old.sel(o + '._data', k, lf))))
+            out.append((f'other.{lf}', {'C16'}, Implies(And(k >= 0, k < cx.old.len('this._data')), cx.sel(o + '._data', k, lf) == cx.old.sel('this._data', k, lf))))
+        return out
+
+
+class ImpedanceAssign(Contract):
+    """Impedance::operator= (copy and swap): the table becomes the argument's, the sample count stays what it was"""
+    name = 'vfps::Impedance::operator='
+    tu = 'src/Z/Impedance.cpp'
+    params = ['other']
+    tags = {'C16', 'C17'}
+    ghosts = {'k': 'int'}
+    returns_ref = True
+
+    def assigns(self, cx):
+        o = cx.arg('other').name
+        return [('r', cx.R('this._data')), ('len', cx.R('this._data')), ('r', o + '._data'), ('len', o + '._data')]
+
+    def ensures(self, cx):
+        o = cx.arg('other').name
+        k = cx.g('k')
+        out = [('length', {'C16', 'C17'}, cx.len('this._data') == cx.old.len(o + '._data')),
+               ('count_untouched', {'C17'}, cx.f('this._nfreqs', 'u64') == cx.old.f('this._nfreqs', 'u64'))]
+        for lf in ('re', 'im'):
+            out.append((f'table.{lf}', {'C16'}, Implies(And(k >= 0, k < cx.old.len(o + '._data')), cx.sel('this._data', k, lf) == cx.old.sel(o + '._data', k, lf))))
+        return out
+
+    @property
+    def calls(self):
+        return {'vfps::Impedance::swap': Use(ImpedanceSwap(), inst=lambda cx: [{'k': cx.ghost_of('k')}])}
+
+
+class AssignOrReset:
+    """`rv = nullptr` (the result pointer is reset) or `*rv = <Impedance>` (Impedance::operator= by its contract)"""
+
+    def __call__(self, ex, n, st, objn, argn, this_override=None):
+        from vf.unit import _walk
+        if any(x.get('kind') == 'CXXNullPtrLiteralExpr' for x in _walk(argn[0])):
+            return ResetToNull()(ex, n, st, objn, argn, this_override)
+        return Use(ImpedanceAssign(), inst=lambda cx: [{'k': cx.ghost_of('k')}])(ex, n, st, objn, argn, this_override)
+
+
 class MakeUniqueImpedance(Use):
     """std::make_unique<Impedance>(nfreqs, fmax, oclh): heap object built by the zero constructor"""
 
@@ -633,7 +695,7 @@ class MakeImpedance(Contract):
                 'vfps::Impedance::operator+=': Use(ImpedanceAddAssign(), inst=inst),
                 'operator+=': Use(ImpedanceAddAssign(), inst=inst),
                 'operator!=': StringNonEmpty(),
-                'operator=': ResetToNull(),
+                'operator=': AssignOrReset(),
                 'printText': lambda ex, n, st, objn, argn, this_override=None: VoidV()}
 
     # ---- the statement: "the factory returns the sum of the selected contributions (or nothing when none is selected)"
